@@ -48,6 +48,7 @@ inductive Err
   | indexError            -- IndexError
   | bareValueError        -- `raise ValueError` with no message
   | typeError             -- TypeError
+  | floatParse            -- ValueError("could not convert string to float: …")
   | badRequest            -- driver only: malformed request line
   deriving Repr, DecidableEq, Inhabited
 
@@ -59,10 +60,23 @@ def Err.tag : Err → String
   | .overflow => "overflow" | .timeFieldRange => "timeFieldRange"
   | .dateRange => "dateRange" | .keyError => "keyError" | .indexError => "indexError"
   | .bareValueError => "bareValueError" | .typeError => "typeError"
+  | .floatParse => "floatParse"
   | .badRequest => "badRequest"
 
 inductive Dir | rising | setting
   deriving Repr, DecidableEq, Inhabited
+
+/-- `Observer.elevation`: a float, or (height difference, distance) to an obscuring feature -/
+inductive Elev (α : Type) where
+  | flt (h : α)
+  | tup (dh dist : α)
+  deriving Repr, Inhabited
+
+structure Obs (α : Type) where
+  lat : α
+  lon : α
+  elev : Elev α
+  deriving Repr, Inhabited
 
 section
 variable {α : Type} [Add α] [Sub α] [Mul α] [Div α] [Neg α] [LT α] [LE α] [OfScientific α]
